@@ -409,4 +409,9 @@ WITNESSES = [
     {"id": "C05.w12-stop-keeps-serial", "rule": "C05.R5", "file": RT,
      "old": "\t\ttr_close(rtr_socket->tr_socket);\n\t\trtr_socket->request_session_id = true;\n\t\trtr_socket->serial_number = 0;",
      "new": "\t\ttr_close(rtr_socket->tr_socket);\n\t\trtr_socket->serial_number = 0;"},
+    {"id": "C05.w-serial-zero-treated-as-no-serial", "rule": "C05.R1", "file": PK,
+     "old": "\tRTR_DBG(\"sending serial query, SN: %u\", rtr_socket->serial_number);", "new": "\tif (rtr_socket->serial_number == 0)\n\t\treturn rtr_send_reset_query(rtr_socket);\n\tRTR_DBG(\"sending serial query, SN: %u\", rtr_socket->serial_number);"},
+    {"id": "C05.w-no-data-is-fatal-within-a-session", "rule": "C05.R5", "file": PK,
+     "old": "\t\tRTR_DBG1(\"No data available\");\n\t\trtr_change_socket_state(rtr_socket, RTR_ERROR_NO_DATA_AVAIL);",
+     "new": "\t\tRTR_DBG1(\"No data available\");\n\t\tif (rtr_socket->request_session_id)\n\t\t\trtr_change_socket_state(rtr_socket, RTR_ERROR_NO_DATA_AVAIL);\n\t\telse\n\t\t\trtr_change_socket_state(rtr_socket, RTR_ERROR_FATAL);"},
 ]
